@@ -95,13 +95,17 @@ def scenarios(rng, limit, opt):
         yield z, [b"big"] + apex, 15
     elif kind < 0.8:
         # a referral: name servers inside the delegated zone (mandatory glue) and elsewhere (optional)
-        k = rng.randint(1, 6)
+        # ... and, in a third of the cases, the delegation name ITSELF as a name server (`d NS d`, glue at the cut)
+        at_cut = rng.random() < 0.35
+        k = rng.randint(0 if at_cut else 1, 6)
         inside = [[b"ns%d" % i, b"d"] for i in range(k)]
+        if at_cut:
+            inside.insert(rng.randrange(len(inside) + 1), [b"d"])
         outside = [[b"ons%d" % i] for i in range(rng.randint(0, 3))]
         used = 12 + len(enc_name([b"x", b"d"] + apex)) + 4 + (11 if opt else 0)
         for nm in inside + outside:
             z.add([b"d"], 2, 600, enc_name(nm + apex))
-            used += 12 + len(nm[0]) + 1 + 2 + (2 if nm in outside else 0)
+            used += 12 + 2 if nm == [b"d"] else 12 + len(nm[0]) + 1 + 2 + (2 if nm in outside else 0)
         room = max(0, target - used)
         na = max(1, room // (16 * max(1, len(inside) + len(outside))))
         cnt = 0
@@ -301,7 +305,8 @@ def nontrivial(case, impl, model, oracle):
 RULE = ("each request (plain QUERY, RD random, with or without an OPT advertising 0/511/512/513/700/1232/4096/65535/random octets) is sent over "
         "UDP and over TCP to the real server (EDNS size 512/1232/4096/random); zones are built so that the complete response is within +-40 "
         "octets of the limit in effect (512 or the negotiated size): one TXT RRset of exactly tuned size, many A records, MX with target "
-        "addresses straddling the limit in the additional section, referrals with 1-6 name servers inside the delegated zone (mandatory glue) "
+        "addresses straddling the limit in the additional section, referrals with 1-6 name servers inside the delegated zone (mandatory glue; "
+        "in a third of them the delegation name ITSELF is a name server, `d NS d`, with A/AAAA glue at the cut) "
         "and 0-3 elsewhere (optional), CNAME chains of 2-10 links with labels sized to cross the limit (ending at a host, nowhere, outside, in "
         "a loop), NXDOMAIN with a SOA of tuned size; plus the nested catalogs of C05 under random negotiation; both responses are compared "
         "OCTET FOR OCTET with the model (query model over the Writer model), and the extracted pair relation is the oracle; non-trivial = TC, "
@@ -311,7 +316,8 @@ CHECK = {
     "property": "C04",
     "props": "Props/C04.v",
     "theorems": ["c04_tc_on_the_octets", "c04_clause_iv", "c04_clause_iv_two_runs", "c04_endings_on_the_octets", "c04_only_optional_omitted_partial", "c04_glue_complete_partial", "c04_optional_only_partial", "c04_response_within_limit", "c04_tc_shape", "c04_limit_value", "c04_udp_response_size", "c04_udp_identical_when_fits_partial", "c04_writer_limit_monotone", "c04_oracle_tc_shape",
-                 "c04_oracle_sizes_and_identity"],
+                 "c04_oracle_sizes_and_identity", "c04_signed_oracle_conservative", "c04_signed_oracle_sizes_and_identity",
+                 "c04_signed_oracle_tc_shape", "c04_signed_oracle_omission", "c04_signed_oracle_tsig_set_aside"],
     "allowed_axioms": [],
     "suites": [{
         "name": "pair", "impl_bin": "impl_c04", "extract": "Extract/ExC04.v", "driver": "run_c04.ml",
@@ -328,12 +334,24 @@ CHECK = {
         "(C01/C03/C07/C08/C09); its composition with the Writer side is executed by the runner, not a theorem",
         "oracle: Spec/RespS.v pair_check over the RFC 1035 decoder of Spec/MsgWriterS.v, extracted (ExtrOcamlBasic only), run on the "
         "implementation's responses; the requestor's payload size is taken from the generator's case line",
+        "suite signed is ORACLE-DECIDED: no model of TSIG-bearing response octets exists (the Writer model has no signing mode, HMAC is a "
+        "parameter of the server model); Spec/RespSigS.v pair_check_signed (= pair_check on responses without TSIG: "
+        "c04_signed_oracle_conservative) extracted by Extract/ExSig.v, ocaml/run_sig.ml kept as a co-process by checks/siggen.py; "
+        "harness/src/bin/impl_sig.rs signs the request with the crate's own Writer (a request the server rejects would show as NOTAUTH "
+        "responses in the outcome histogram, not as a violation) and relies on the wall clock not ticking between the two transports "
+        "(checked, retried)",
         "harness/src/bin/impl_c04.rs, ocaml/run_c04.ml (the model uses a 4096-octet buffer when the uncompressed response is below 4000 "
         "octets, 65535 otherwise; a wrong choice would show as an octet difference), checks/c04.py generators",
     ],
-    "assumptions": ["requests of this suite are plain QUERYs with one question and at most one OPT (version 0, no TSIG); "
-                    "response buffer of 65535 octets as the I/O providers pass"],
+    "assumptions": ["suite pair: plain QUERYs with one question and at most one OPT (version 0, no TSIG); response buffer of 65535 octets. "
+                    "Suite signed: QUERYs with one question, at most one OPT, and a TSIG RR that verifies under the one key the server "
+                    "holds (hmac-sha1 / hmac-sha256, time within the fudge); UDP response buffer = the server's EDNS size, TCP 65535, as "
+                    "the I/O providers pass; both transports served within one second of the clock"],
 }
+
+# ---- second suite: CORRECTLY SIGNED requests (checks/siggen.py). Oracle-decided: no model of TSIG-bearing octets exists.
+import siggen
+CHECK["suites"].append(siggen.suite(siggen.oracle_c04, siggen.findings_c04, siggen.classify_c04))
 
 MANIFEST = {
     "level_text": ("Coq theorems (no axioms). Server model: the limit of every response handle_message yields is 65535 over TCP, 512 "
@@ -365,10 +383,18 @@ MANIFEST = {
                    "clause (iii) for answers ending in SERVFAIL after partial writes (false there: known finding C04-1) "
                    "is not a theorem; it, and all clauses on the real octets, are decided on every run by the extracted relation pair_check "
                    "on the real server's two responses to ~2.4k requests tuned to within +-40 octets of 512 and of random negotiated "
-                   "sizes; both responses are also compared octet for octet with the model."),
+                   "sizes; both responses are also compared octet for octet with the model. RESPONSES THAT CARRY A TSIG (requests whose "
+                   "signature verified) are outside every model: suite `signed` sends ~1.6k correctly signed requests (crate's own "
+                   "Writer, one installed key, key names 3..255 octets sharing labels with the zone's RDATA names / apex / QNAME or "
+                   "unrelated, QNAMEs up to 255 octets, the same size tuning incl. question + TSIG RR around the limit) over both "
+                   "transports and decides all clauses by the extracted pair_check_signed — pair_check with the trailing TSIG records "
+                   "set aside in the omission clause (equal modulo RDATA, never counted as omitted), proved equal to pair_check on "
+                   "responses without TSIG (c04_signed_oracle_conservative; meaning of its verdict: c04_signed_oracle_*). Known finding "
+                   "C04-2 (conservative TSIG reservation) was found by it."),
     "level_note": ("Trusted: Coq kernel, extraction, fidelity of the hand-written models (octet-exact differential test on every run), "
-                   "C12's Writer invariants (reused), the decoder used by the oracle. Known finding C04-1 (see known_findings.jsonl)."),
-    "technique": "machine-checked proof in Coq (invariants and a limit-monotonicity simulation lifted through the query model over the Writer model; limit value through the server model) + octet-exact correspondence on both transports + extracted pair-relation oracle",
+                   "C12's Writer invariants (reused), the decoder used by the oracle; for signed requests nothing but the oracle, the "
+                   "harness runner and the wall clock. Known findings C04-1, C04-2 (see known_findings.jsonl)."),
+    "technique": "machine-checked proof in Coq (invariants and a limit-monotonicity simulation lifted through the query model over the Writer model; limit value through the server model) + octet-exact correspondence on both transports + extracted pair-relation oracle (for TSIG-signed requests: oracle only)",
     "design_ref": "DESIGN.md section 4 (C04)",
 }
 
